@@ -73,3 +73,45 @@ def cleanup():
                 os.unlink(binp)
             except OSError:
                 pass
+
+
+# ---------------------------------------------------------------------------------------------
+# ./check <Cxx> --replay <path>
+# ---------------------------------------------------------------------------------------------
+SCENARIO_BY_OBLIGATION = {
+    ("C13", "O13.2/no_silent_fallback"): ["fallback-snapshot"],
+    ("C13", "O13.3/midframe_eof"): ["midframe-eof"],
+    ("C01", "O1.5/crash_window"): ["crash-after-unlink"],
+    ("C01", "O1.3/periodic_idle"): ["periodic-idle"],
+    ("C03", "O3.1/pinned"): ["failed-overwrite", "nan"],
+    ("C15", "O15.4/engine_refusal"): ["failed-overwrite", "inf"],
+}
+
+
+def replay_file(prop, path):
+    """Re-run what can be re-run for a stored counterexample: JSON files written by the runner name the
+    obligation; if a native scenario is registered for it, it is executed against the current tree
+    (exit 1 if it reproduces, 0 if not).  Kani playback tests (*.playback.rs) are printed with the
+    command that executes them."""
+    import json
+    if not os.path.exists(path):
+        print("replay file not found: " + path)
+        return 2
+    if path.endswith(".rs"):
+        print(open(path).read())
+        print("\n# to execute: this test is appended to the harness module of an overlay copy and run with `cargo kani playback -Z concrete-playback`;")
+        print("# `./check %s` does exactly that automatically whenever the harness fails." % prop)
+        return 0
+    d = json.load(open(path))
+    print(json.dumps(d, indent=1)[:4000])
+    sc = SCENARIO_BY_OBLIGATION.get((d.get("property", prop), d.get("obligation", "")))
+    if not sc:
+        print("\n[verif] no native scenario is registered for this obligation; the stored path/model above is the counterexample")
+        return 0
+    r = run_scenario(sc, timeout=300)
+    cleanup()
+    print("\n[verif] native scenario `verif_replay %s`: %s" % (" ".join(sc), r.get("output")))
+    if r.get("reproduced"):
+        print("VIOLATION property=%s replay=%s" % (prop, path))
+        return 1
+    return 0 if r.get("reproduced") is False else 2
